@@ -80,3 +80,27 @@ func H_c18_long() {
 	c18Check(text)
 	symReach("end")
 }
+
+// C18 K4: the stored body of one message is not disturbed by composing another
+// one afterwards (conversion results must not share storage)
+func H_c18_two() {
+	N := symParam("N", 2)
+	t1, t2 := "", ""
+	for i, n := 0, symInt(1, N); i < n; i++ {
+		t1 += c18SymChar()
+	}
+	for i, n := 0, symInt(0, N); i < n; i++ {
+		t2 += c18SymChar()
+	}
+	m1 := &Message{Header: make(Header)}
+	symAssert(m1.SetBody(t1) == nil, "SetBody-ok")
+	first := string(m1.body)
+	m2 := &Message{Header: make(Header)}
+	symAssert(m2.SetBody(t2) == nil, "SetBody-ok")
+	symAssert(string(m1.body) == first, "stored-body-unchanged-by-a-later-SetBody-on-another-message")
+	back, err := BodyFromBytes(m1.body, DefaultCharset)
+	symAssert(err == nil && stripCRLF(back) == stripCRLF(t1), "text-preserved-apart-from-line-normalisation")
+	back2, err := BodyFromBytes(m2.body, DefaultCharset)
+	symAssert(err == nil && stripCRLF(back2) == stripCRLF(t2), "text-preserved-apart-from-line-normalisation")
+	symReach("end")
+}
